@@ -1233,6 +1233,80 @@ def rule_initial_pick(ctx, res):
               detail=why, key='initial-pick')
 
 
+def rule_initial_marks(ctx, res):
+    """MARK: a candidate is flagged "requested" exactly when it is put into a slot of the first round.  The end-game asks every
+    candidate whose flag is false: a candidate flagged without having been handed to the round is never asked at all."""
+    fn = 'action::lookup::pick_initial_nodes'
+    b = ctx.body(fn)
+    res.touch(b)
+    s = Sym(b)
+    s.run()
+    res.paths += len(s.paths)
+    ok = True
+    why = ''
+    n = 0
+    for p in s.paths:
+        ws = [e for e in p.effects if e[0] == 'write']
+        if p.end != 'loop':
+            if ws:
+                ok, why = False, 'a write outside the slot loop'
+            continue
+        nx = [literal(c) for c in p.conds if literal(c)[0] == 'variant' and isinstance(literal(c)[1], tuple) and literal(c)[1][0] == 'call' and literal(c)[1][1].split('::')[-1] == 'next' and option_is_some(literal(c)[2])]
+        if len(nx) != 1:
+            ok, why = False, 'the slot loop is not driven by one iterator'
+            continue
+        n += 1
+        elem = ('field', ('downcast', nx[0][1], 'Some'), '0')
+        z = find_calls(nx[0][1], '::zip')
+        if not z:
+            ok, why = False, 'candidates and slots are not walked in lock step (zip)'
+            continue
+        # which side of the pair is the candidate, which the slot
+        left, right = strip_transparent(z[0][2][0]), z[0][2][1]
+        cand_side, slot_side = ('0', '1') if (is_param(root_of(left), 'sorted_nodes') or is_param(left, 'sorted_nodes')) else ('1', '0')
+        cand_iter = z[0][2][0] if cand_side == '0' else z[0][2][1]
+        # the candidate iterator has no side effects of its own (a marking closure inside it would run for a candidate that
+        # gets no slot, because zip fetches from its left side first)
+        for x in lib.term_walk(cand_iter):
+            if isinstance(x, tuple) and len(x) == 3 and x[0] == 'closure' and ctx.f.body(x[1]) is not None:
+                cs = Sym(ctx.f.body(x[1]))
+                cs.run()
+                if any(e[0] == 'write' for q in cs.paths for e in q.effects):
+                    ok, why = False, 'the candidate iterator marks candidates itself (closure %s)' % x[1].split('::')[-1]
+        got = set()
+        for e in ws:
+            tgt = strip_transparent(e[1])
+            fc = field_chain(tgt)
+            if not any(y == elem for y in lib.term_walk(tgt)):
+                ok, why = False, 'a write to something else than the current pair'
+                continue
+            tail = tuple(fc[-2:])
+            if tail == (cand_side, '2') and term_int(e[2]) == 1:
+                got.add('flag')
+            elif tail == (slot_side, '1') and term_int(e[2]) == 1:
+                got.add('used')
+            elif tail == (slot_side, '0') and tuple(field_chain(strip_transparent(e[2]))[-2:]) == (cand_side, '1') and any(y == elem for y in lib.term_walk(e[2])):
+                got.add('handle')
+            else:
+                ok, why = False, 'unexpected write %s := %s' % (fmt(tgt)[:50], fmt(e[2])[:40])
+        if got != {'flag', 'used', 'handle'}:
+            ok, why = False, why or 'an iteration does not do all of: slot.handle = candidate, slot.used = true, candidate.requested = true (%s)' % sorted(got)
+    res.check(ok and n >= 1, 'PAIR', fn, 'each iteration stores the candidate in the slot, marks the slot used and flags the candidate as requested - all three or none, and nowhere else',
+              detail=why, key='initial-marks')
+    # no other place writes the flag directly
+    writers = {}
+    for body in ctx.f.body_list:
+        if body.kind == 'stolen':
+            continue
+        for blk in body.blocks:
+            for st in blk['stmts']:
+                if st['k'] == 'assign' and st['place']['p']:
+                    last = st['place']['p'][-1]
+                    if isinstance(last, dict) and last.get('f') == 2 and 'node::NodeHandle, bool)' in str(last.get('bt')):
+                        writers[body.path] = writers.get(body.path, 0) + 1
+    res.check(set(writers) <= {fn} and writers, 'WHO', fn, 'the requested flag of a candidate is assigned in place only by the first-round pick', detail=str(writers), key='flag-writers')
+
+
 def rule_round_nonempty(ctx, res):
     """ROUND-NONEMPTY: an iterative round is started only with at least one node to query.
 
